@@ -30,13 +30,14 @@ META = {
 }
 
 
-def build_docs(rng, n_create, n_delete, n_other, n_replace, two_ids):
+def build_docs(rng, n_create, n_delete, n_other, n_replace, two_ids, dup_ids=False):
     docs = []
     mid = [0]
 
     def nxt():
-        mid[0] += rng.randint(1, 5)
-        return mid[0]
+        # dup_ids: message IDs may repeat (several messages - the roCreate included - share one)
+        mid[0] += rng.randint(0, 1) if dup_ids else rng.randint(1, 5)
+        return max(mid[0], 1)
     for k in range(n_create):
         docs.append(gen.grid_ro(['A', 'B'], 'none').replace('<messageID>1</messageID>',
                                                               '<messageID>%d</messageID>' % nxt()))
@@ -56,7 +57,7 @@ def build_docs(rng, n_create, n_delete, n_other, n_replace, two_ids):
         docs.append(gen.grid_ro(['R'], 'none').replace('roCreate', 'roReplace')
                     .replace('<messageID>1</messageID>', '<messageID>%d</messageID>' % nxt()))
     for k in range(n_delete):
-        docs.append(B.msg_doc('roDelete', nxt() + 1000))
+        docs.append(B.msg_doc('roDelete', nxt() + (0 if dup_ids else 1000)))
     if two_ids and len(docs) >= 2:
         j = rng.randrange(len(docs))
         docs[j] = docs[j].replace('<roID>RO</roID>', '<roID>OTHER</roID>', 1)
@@ -94,8 +95,8 @@ def judge(s, docs, allow_incomplete, how, cfg, vec, tmpdir):
         create_id = [K.message_id_of(d) for d, c in zip(docs, classes) if c == 'RunningOrder'][0]
         ok_ro = type(mc.ro).__name__ == 'RunningOrder' and mc.ro.message_id == create_id
         readers_ok = all(mr.mos_type.__name__ != 'RunningOrder' for mr in mc.mos_readers) and \
-            sorted(mr.message_id for mr in mc.mos_readers) == sorted(
-                K.message_id_of(d) for d, c in zip(docs, classes) if c != 'RunningOrder')
+            sorted((mr.message_id, mr.mos_type.__name__) for mr in mc.mos_readers) == sorted(
+                (K.message_id_of(d), c) for d, c in zip(docs, classes) if c != 'RunningOrder')
         if not ok_ro or not readers_ok:
             s.custom_violation('accepted-collection-has-wrong-ro-or-readers', det, wit, status=cfg)
     if len(s.samples) < 3 and s.evaluations % 97 == 0:
@@ -118,7 +119,7 @@ def run(s):
                 if not s.mine(idx):
                     continue
                 rng = s.rng('grid', n_c, n_d, n_o, n_r, two)
-                docs = build_docs(rng, n_c, n_d, n_o, n_r, two)
+                docs = build_docs(rng, n_c, n_d, n_o, n_r, two, dup_ids=(idx % 3 == 0))
                 if order:
                     docs = list(reversed(docs))
                 hows = ('strings',) if q else ('strings', 'files', 's3')
